@@ -1457,8 +1457,14 @@ func (f *Frame) execSlice(x *ssa.Slice) {
 		if lo != "0" {
 			vc.errf("%s: array slicing with non-zero low bound unsupported", vc.P.fnKey(f.fn))
 		}
+		if x.High != nil {
+			f.safety("slice-bounds", and(sx("<=", lo, hi), sx("<=", hi, fmt.Sprint(arrT.Len()))), x.Pos())
+		}
 		if s == SBS {
-			f.vals[x] = vc.freshVal("arrbytes", x.Type())
+			// the length of arr[lo:hi] is exact (hi - lo), its content is arbitrary
+			r := vc.freshVal("arrbytes", x.Type())
+			vc.assume(eq(sx("strlen", sx("bs_c", r.t)), sx("-", hi, lo)))
+			f.vals[x] = r
 			return
 		}
 		f.vals[x] = Val{sx("mk_"+s, "false", hi, av.t), s, x.Type()}
